@@ -17,7 +17,12 @@
 (*   (c) the state machine around the calculators: the fetcher's NaN drop     *)
 (*       (_component_metric_fetcher.py fetch_next), its silence time-out,     *)
 (*       SendOnUpdate.update_working_batteries' cache eviction and the        *)
-(*       recalculation after every change (_methods.py).                      *)
+(*       recalculation after every change (_methods.py),                      *)
+(*   (d) the BatteryPool wrapper layer (_battery_pool.py, _battery_pool_       *)
+(*       reference_store.py): the reference store follows the status channel, *)
+(*       the aggregator of a metric is created lazily at the first use of     *)
+(*       BatteryPool.soc / .capacity from the store's CURRENT working set and  *)
+(*       follows every later status update (modes "pool" / "poolsim").        *)
 (* TLC checks (a) against (b) and the relational clauses (Range, Monotone,    *)
 (* ScaleInvariant, Excluded ...) over every data set of the scope; the trace  *)
 (* specification PoolMetricsTrace evaluates the same clauses on values the    *)
@@ -36,7 +41,10 @@ CONSTANTS NB,          \* number of batteries of the pool
           HMsgs,       \* message alphabet of "history": set of [cap, soc, lo, hi] (NaN allowed)
           MaxDepth,    \* bound on the history length
           MaxTicks,    \* bound on the number of Tick actions in a history
-          MaxAge       \* ticks of silence after which the fetcher reports "no metrics"
+          MaxAge,      \* ticks of silence after which the fetcher reports "no metrics"
+          Warm         \* "pool": ticks a new SendOnUpdate waits before its first result
+                       \*   "pool" explore StatusUpdate / FirstUse / PoolMsg / PoolTick, one history per transition
+                       \*   "poolsim" the same with random arguments, full-length histories only
 
 VARIABLES data,       \* battery -> [p, cap, soc, lo, hi]   (SendOnUpdate._cached_metrics)
           working,    \* set of working batteries           (SendOnUpdate._working_batteries)
@@ -45,10 +53,15 @@ VARIABLES data,       \* battery -> [p, cap, soc, lo, hi]   (SendOnUpdate._cache
           old,        \* ghost: data[b] was received before b last left the working set
           pub,        \* [soc, cap] last published results  (what _send_on_update sent)
           nticks,
+          refW,       \* "pool": BatteryPoolReferenceStore._working_batteries
+          seen,       \* "pool": a status message has been received
+          agg,        \* "pool": metric -> [on, w, data, due, warm]  the lazily created SendOnUpdate
           h           \* history of actions (hidden by VIEW)
 
-vars == <<data, working, installed, due, old, pub, nticks, h>>
-View == <<data, working, installed, due, old, pub, nticks>>
+vars == <<data, working, installed, due, old, pub, nticks, refW, seen, agg, h>>
+View == <<data, working, installed, due, old, pub, nticks, refW, seen, agg>>
+pvars == <<refW, seen, agg>>                                 \* wrapper layer
+cvars == <<data, working, installed, due, old, pub>>         \* single-aggregator machine
 
 None == -99          \* metric missing / result None
 NaN  == -98          \* a NaN field of an API message
@@ -202,6 +215,26 @@ ScaleList(dt, W) ==
 Case(dt, W) == [data |-> dt, w |-> WSeq(W), exp |-> DocSoC(dt, W), expc |-> DocCap(dt, W),
                 inc |-> IncList(dt, W), scale |-> ScaleList(dt, W)]
 
+\* LatestMetricsFetcher.fetch_next: a NaN field is dropped, i.e. the metric is missing
+FetchDrop(m) == [p |-> TRUE,
+                 cap |-> IF m.cap = NaN THEN None ELSE m.cap, soc |-> IF m.soc = NaN THEN None ELSE m.soc,
+                 lo  |-> IF m.lo  = NaN THEN None ELSE m.lo,  hi  |-> IF m.hi  = NaN THEN None ELSE m.hi]
+
+\* ---- (d) wrapper layer -------------------------------------------------------
+IsPool == Mode \in {"pool", "poolsim"}
+Metrics == {"soc", "cap"}
+AggOff == [on |-> FALSE, w |-> {}, data |-> [b \in Bats |-> Absent], due |-> [b \in Bats |-> MaxAge], warm |-> 0]
+\* one SendOnUpdate: a message, a new working set (eviction), one tick (time-outs, warm-up)
+AggMsg(a, b, m) == [a EXCEPT !.data[b] = FetchDrop(m), !.due[b] = MaxAge]
+AggSetW(a, W) == [a EXCEPT !.w = W, !.data = [b \in Bats |-> IF b \in a.w \ W THEN Absent ELSE a.data[b]]]
+AggTick(a) == [a EXCEPT !.data = [b \in Bats |-> IF a.due[b] = 1 THEN Empty ELSE a.data[b]],
+                        !.due = [b \in Bats |-> IF a.due[b] = 1 THEN MaxAge ELSE a.due[b] - 1],
+                        !.warm = Max2(0, a.warm - 1)]
+Publishing(a) == a.on /\ a.warm = 0
+\* expectation triples of the two public streams; kind 3 = nothing published (not requested / warming up)
+PExps(ag) == [exp  |-> IF Publishing(ag["soc"]) THEN DocSoC(ag["soc"].data, ag["soc"].w) ELSE <<3, 0, 1>>,
+              expc |-> IF Publishing(ag["cap"]) THEN DocCap(ag["cap"].data, ag["cap"].w) ELSE <<3, 0, 1>>]
+
 Init ==
     /\ data = [b \in Bats |-> IF Mode = "states" THEN Absent ELSE Empty]
     /\ working \in (IF Mode = "states" THEN SUBSET Bats ELSE {Bats})
@@ -210,7 +243,8 @@ Init ==
     /\ old = [b \in Bats |-> FALSE]
     /\ pub = Pub(data, working)
     /\ nticks = 0
-    /\ h = <<[a |-> "init", w |-> WSeq(working)] @@ Exps(data, working)>>
+    /\ refW = {} /\ seen = FALSE /\ agg = [m \in Metrics |-> AggOff]
+    /\ h = <<[a |-> "init", w |-> WSeq(working)] @@ (IF IsPool THEN PExps(agg) ELSE Exps(data, working))>>
 
 Ready == installed = NB
 
@@ -221,12 +255,7 @@ Install(d) ==
     /\ installed' = installed + 1
     /\ data' = [data EXCEPT ![installed + 1] = d]
     /\ pub' = Pub(data', working)
-    /\ UNCHANGED <<working, due, old, nticks, h>>
-
-\* LatestMetricsFetcher.fetch_next: a NaN field is dropped, i.e. the metric is missing
-FetchDrop(m) == [p |-> TRUE,
-                 cap |-> IF m.cap = NaN THEN None ELSE m.cap, soc |-> IF m.soc = NaN THEN None ELSE m.soc,
-                 lo  |-> IF m.lo  = NaN THEN None ELSE m.lo,  hi  |-> IF m.hi  = NaN THEN None ELSE m.hi]
+    /\ UNCHANGED <<working, due, old, nticks, h, pvars>>
 
 \* an API message of battery b travels through fetch_next into _cached_metrics; recalculation
 Msg(b, m) ==
@@ -234,7 +263,7 @@ Msg(b, m) ==
     /\ due' = [due EXCEPT ![b] = MaxAge]
     /\ old' = [old EXCEPT ![b] = FALSE]
     /\ pub' = Pub(data', working)
-    /\ UNCHANGED <<working, installed, nticks>>
+    /\ UNCHANGED <<working, installed, nticks, pvars>>
     /\ h' = Append(h, [a |-> "msg", b |-> b, cap |-> m.cap, soc |-> m.soc, lo |-> m.lo, hi |-> m.hi]
                       @@ Exps(data', working))
 
@@ -246,7 +275,7 @@ SetWorking(W) ==
     /\ data' = [b \in Bats |-> IF b \in working \ W THEN Absent ELSE data[b]]
     /\ old' = [b \in Bats |-> IF b \in working \ W THEN data'[b].p ELSE old[b]]
     /\ pub' = Pub(data', working')
-    /\ UNCHANGED <<installed, due, nticks>>
+    /\ UNCHANGED <<installed, due, nticks, pvars>>
     /\ h' = Append(h, [a |-> "work", w |-> WSeq(W)] @@ Exps(data', working'))
 
 \* one tick of silence: a fetch_next that has waited MaxAge ticks reports the battery without
@@ -258,11 +287,55 @@ Tick ==
     /\ due' = [b \in Bats |-> IF due[b] = 1 THEN MaxAge ELSE due[b] - 1]
     /\ old' = [b \in Bats |-> IF due[b] = 1 THEN FALSE ELSE old[b]]
     /\ pub' = Pub(data', working)
-    /\ UNCHANGED <<working, installed>>
+    /\ UNCHANGED <<working, installed, pvars>>
     /\ h' = Append(h, [a |-> "tick"] @@ Exps(data', working))
 
+\* BatteryPoolReferenceStore._update_battery_status: the store takes the working set of the status
+\* message and hands it to every aggregator that exists
+StatusUpdate(W) ==
+    /\ refW' = W /\ seen' = TRUE
+    /\ agg' = [m \in Metrics |-> IF agg[m].on THEN AggSetW(agg[m], W) ELSE agg[m]]
+    /\ UNCHANGED <<cvars, nticks>>
+    /\ h' = Append(h, [a |-> "status", w |-> WSeq(W)] @@ PExps(agg'))
+
+\* first access of BatteryPool.soc / .capacity: SendOnUpdate(working_batteries = the store's current
+\* working set), empty cache, fetchers start waiting, warm-up before the first result
+FirstUse(m) ==
+    /\ ~agg[m].on
+    /\ agg' = [agg EXCEPT ![m] = [on |-> TRUE, w |-> refW, data |-> [b \in Bats |-> Absent],
+                                   due |-> [b \in Bats |-> MaxAge], warm |-> Warm]]
+    /\ UNCHANGED <<cvars, nticks, refW, seen>>
+    /\ h' = Append(h, [a |-> "use", m |-> m] @@ PExps(agg'))
+
+PoolMsg(b, m) ==
+    /\ agg' = [k \in Metrics |-> IF agg[k].on THEN AggMsg(agg[k], b, m) ELSE agg[k]]
+    /\ UNCHANGED <<cvars, nticks, refW, seen>>
+    /\ h' = Append(h, [a |-> "msg", b |-> b, cap |-> m.cap, soc |-> m.soc, lo |-> m.lo, hi |-> m.hi] @@ PExps(agg'))
+
+PoolTick ==
+    /\ nticks < MaxTicks
+    /\ nticks' = nticks + 1
+    /\ agg' = [k \in Metrics |-> IF agg[k].on THEN AggTick(agg[k]) ELSE agg[k]]
+    /\ UNCHANGED <<cvars, refW, seen>>
+    /\ h' = Append(h, [a |-> "tick"] @@ PExps(agg'))
+
 Guard == Mode \in {"history", "sim"} /\ Len(h) < MaxDepth
-EmitRule == Mode = "history" => Emit(h')
+PGuard == IsPool /\ Len(h) < MaxDepth
+EmitRule == Mode \in {"history", "pool"} => Emit(h')
+StatusStep == /\ PGuard
+              /\ IF Mode = "poolsim" THEN LET W == RandomElement(SUBSET Bats) IN StatusUpdate(W)
+                 ELSE \E W \in SUBSET Bats : W # refW /\ StatusUpdate(W)
+              /\ EmitRule
+UseStep == /\ PGuard
+           /\ IF Mode = "poolsim" THEN LET m == RandomElement(Metrics) IN FirstUse(m)
+              ELSE \E m \in Metrics : FirstUse(m)
+           /\ EmitRule
+PoolMsgStep == /\ PGuard
+               /\ \E m \in Metrics : agg[m].on                   \* nobody listens before the first use
+               /\ IF Mode = "poolsim" THEN LET b == RandomElement(Bats)  m == RandomElement(MsgSet) IN PoolMsg(b, m)
+                  ELSE \E b \in Bats, m \in HMsgs : PoolMsg(b, m)
+               /\ EmitRule
+PoolTickStep == PGuard /\ PoolTick /\ EmitRule
 InstallStep == /\ Mode = "states" /\ installed < NB       \* (repeated here so that finished states cost nothing)
                /\ \E d \in BatSet : Install(d)
                /\ (installed' = NB) => Emit(Case(data', working))
@@ -277,9 +350,9 @@ WorkStep == /\ Guard
                ELSE \E W \in SUBSET Bats : SetWorking(W)
             /\ EmitRule
 TickStep == Guard /\ Tick /\ EmitRule
-SimEmit == (Mode = "sim" /\ Len(h) = MaxDepth) => Emit(h)
+SimEmit == (Mode \in {"sim", "poolsim"} /\ Len(h) = MaxDepth) => Emit(h)
 
-Next == InstallStep \/ MsgStep \/ WorkStep \/ TickStep
+Next == InstallStep \/ MsgStep \/ WorkStep \/ TickStep \/ StatusStep \/ UseStep \/ PoolMsgStep \/ PoolTickStep
 Spec == Init /\ [][Next]_vars
 
 ----------------------------------------------------------------------------
@@ -299,5 +372,10 @@ Excluded == Ready => ExcludedOf(data, working)
 PublishedIsCurrent == pub = Pub(data, working)
 CacheNoNaN == \A b \in Bats : NaN \notin {data[b].cap, data[b].soc, data[b].lo, data[b].hi}
 NoStaleData == \A b \in Bats : ~old[b]
+\* wrapper layer: every aggregator that exists works on the store's current working set (whenever it
+\* was created), holds no NaN, and keeps nothing of a battery outside that set that it had before
+AggFollowsStore == \A m \in Metrics : agg[m].on => agg[m].w = refW
+AggCacheNoNaN == \A m \in Metrics, b \in Bats :
+                    NaN \notin {agg[m].data[b].cap, agg[m].data[b].soc, agg[m].data[b].lo, agg[m].data[b].hi}
 
 =============================================================================
